@@ -24,6 +24,9 @@ import itertools
 from .. import rx
 from ..absint import HeadersModel
 from ..absint import Interp
+from ..pyint import Interp as _PyInterp
+from ..pyint import Raised as _PRaised
+from ..pyint import Rec as _PRec
 from ..absint import Raised
 from ..absint import Rec
 from ..core import AnalysisError
@@ -106,6 +109,38 @@ def ref_body_size(kind, method, status, te, cl):
     return 0 if kind == "request" else -1
 
 
+class _Log:
+    """stand-in for the `logging` module / a logger: nothing is enabled, every call is a no-op"""
+
+    DEBUG, INFO, WARNING, ERROR = 10, 20, 30, 40
+
+    def getLogger(self, *a, **k):
+        return self
+
+    def isEnabledFor(self, *a, **k):
+        return False
+
+    def __getattr__(self, name):
+        if name in ("debug", "info", "warning", "error", "exception", "log", "critical"):
+            return lambda *a, **k: None
+        raise AttributeError(name)
+
+
+class _PI:
+    """pyint with the (rel, qual, {kwargs}) calling convention of the older absint interpreter"""
+
+    def __init__(self, model, externals=None):
+        self.model, self.externals = model, externals
+
+    def _it(self):
+        import re as _re
+
+        return _PyInterp(self.model, trusted_modules={"re": _re, "logging": _Log()}, externals=self.externals)
+
+    def call(self, rel, qual, kwargs):
+        return self._it().call(rel, qual, **kwargs)
+
+
 def check(ctx):
     ctx.exhaustive = True
     ctx.bounds.append("loops unrolled once in path enumeration; the two decision tables enumerate their abstract domains completely; the HttpStream model is explored to a fix-point")
@@ -116,7 +151,7 @@ def check(ctx):
     ctx.rule("R01.5", "header parse errors close + report and never start a body reader")
     ctx.rule("R01.6", "Expect: 100-continue is tested on every forwarding path of state_wait_for_request_headers and removed when answered (an interim 100 from upstream would desync responses)")
     m = ctx.model
-    it = Interp(m)
+    it = _PI(m)
     ctx.func(READ, "expected_http_body_size")
     ctx.func(VAL, "validate_headers")
     ctx.func(VAL, "parse_transfer_encoding")
@@ -141,11 +176,11 @@ def check(ctx):
                 for te, cl in itertools.product(TE_CLASSES, CL_CLASSES):
                     want = ref_body_size(kind, method, status, te, cl)
                     h = headers_of(TE_CLASSES[te], CL_CLASSES[cl])
-                    req = Rec("Request", method=method, headers=h if kind == "request" else headers_of(None, None))
-                    resp = None if kind == "request" else Rec("Response", status_code=status, headers=h)
+                    req = _PRec("Request", method=method, headers=h if kind == "request" else headers_of(None, None))
+                    resp = None if kind == "request" else _PRec("Response", status_code=status, headers=h)
                     try:
                         got = it.call(READ, "expected_http_body_size", {"request": req, "response": resp})
-                    except Raised as r:
+                    except (Raised, _PRaised) as r:
                         got = r.name
                     cells += 1
                     ctx.cells += 1
@@ -179,12 +214,12 @@ def check(ctx):
                         fields = [(b"Transfer-Encoding", v) for v in te_lists[te]] + [(b"content-length", v) for v in cl_lists[cl]] + [(b"X-Ok", b"1")]
                         if badname:
                             fields.append((b"Bad Name", b"x"))
-                        msg = Rec("Request" if kind == "request" else "Response", bases=("Message",), headers=HeadersModel(fields), is_http11=http11,
+                        msg = _PRec("Request" if kind == "request" else "Response", _bases=("Message",), headers=HeadersModel(fields), is_http11=http11,
                                   http_version="HTTP/1.1" if http11 else "HTTP/1.0", status_code=status)
                         try:
                             it.call(VAL, "validate_headers", {"message": msg})
                             got = "accept"
-                        except Raised as r:
+                        except (Raised, _PRaised) as r:
                             got = "reject" if r.name == "ValueError" else f"raises {r.name}"
                         n_te, n_cl = len(te_lists[te]), len(cl_lists[cl])
                         reject = (
@@ -234,7 +269,7 @@ def check(ctx):
         s = pat.decode() if isinstance(pat, bytes) else pat
         ctx.check(s.endswith("$") and not s.endswith("\\$"), "R01.2", (VAL, "<module>", mod.assigns(name)[-1]), f"{name} end anchor",
                   "pattern used with .match() is not anchored at the end: a valid prefix followed by garbage would pass", desc=f"{name} anchored")
-    vocab = it.ev(mod.assigns("_HTTP_1_1_TRANSFER_ENCODINGS")[-1], {}, mod, 0)
+    vocab = it._it().ev(mod.assigns("_HTTP_1_1_TRANSFER_ENCODINGS")[-1], {}, mod, 0)
     ref_vocab = {"chunked", "compress,chunked", "deflate,chunked", "gzip,chunked", "compress", "deflate", "gzip", "identity"}
     ctx.check(set(vocab) == ref_vocab, "R01.2", (VAL, "<module>", mod.assigns("_HTTP_1_1_TRANSFER_ENCODINGS")[-1]), "transfer-coding vocabulary",
               f"vocabulary {sorted(vocab)} differs from the 8 accepted codings", desc="TE vocabulary")
@@ -371,57 +406,99 @@ def check(ctx):
     ctx.expect_instances("R01.6", 2)
 
     # ---- R01.4
-    itr = Interp(m, externals={"ChunkedReader": lambda: "Chunked", "Http10Reader": lambda: "Http10", "ContentLengthReader": lambda n: ("ContentLength", n)})
+    itr = _PI(m, externals={"ChunkedReader": lambda: "Chunked", "Http10Reader": lambda: "Http10", "ContentLengthReader": lambda n: ("ContentLength", n)})
     for arg, want in ((None, "Chunked"), (-1, "Http10"), (0, ("ContentLength", 0)), (12, ("ContentLength", 12))):
         got = itr.call(H1, "make_body_reader", {"expected_size": arg})
         ctx.cells += 1
         ctx.check(got == want, "R01.4", (H1, "make_body_reader", m.func(H1, "make_body_reader")), f"make_body_reader({arg!r})", f"yields {got!r}, expected {want!r}: body is read with a different framing than announced",
                   desc=f"make_body_reader({arg!r}) -> {want}")
-    preds = []
-    for rel, qual in ((H1, "Http1Client.send"), (H1, "Http1Server.send"), (ASM, "assemble_body")):
-        fn = ctx.func(rel, qual)
-        for n in walk_in_order(fn):
-            if isinstance(n, ast.Compare) and isinstance(n.left, ast.Constant) and n.left.value == "chunked" and isinstance(n.ops[0], ast.In):
-                text = norm(n.comparators[0])
-                for recv in ("self.request.headers", "self.response.headers", "headers"):
-                    text = text.replace(recv, "H")
-                preds.append((rel, qual, n, text))
-    ctx.require(len(preds) == 5, f"expected 5 'is chunked' predicates, found {len(preds)}")
-    shapes = {p[3] for p in preds}
-    for rel, qual, n, text in preds:
-        ctx.check(len(shapes) == 1 and text == "H.get('transfer-encoding', '').lower()", "R01.4", (rel, qual, n), norm(n), f"the writers decide 'chunked' differently ({sorted(shapes)})",
-                  desc=f"{qual}: chunked predicate")
-    # chunk literals and terminator
+    # writers: the framing Http1Client.send / Http1Server.send / assemble_body put on the wire, observed by interpreting their ASTs
+    # (mitmlint.pyint; commands are recording stubs, mark_done / expected_http_body_size are stubbed) for every Transfer-Encoding class:
+    # chunk frames <hex len>CRLF<data>CRLF and the last-chunk 0CRLFCRLF exactly when the header block announces chunked (never for the
+    # end of a HEAD response), identity bytes otherwise.  Helpers, constants and match/if shape are followed by the interpreter.
+    from ..pyint import DictRec as PDict
+    from ..pyint import Interp as PInterp
+    from ..pyint import Raised as PRaised
+    from ..pyint import Rec as PRec
+
+    class _Cmd:
+        def __init__(self, name, data=None):
+            self.name, self.data = name, data
+
+        def __repr__(self):
+            return f"{self.name}({self.data!r})" if self.data is not None else self.name
+
+    def _ext():
+        send = lambda conn, data: _Cmd("SendData", data)  # noqa: E731
+        other = lambda name: (lambda *a, **k: _Cmd(name))  # noqa: E731
+        return {"commands.SendData": send, "SendData": send, "self.mark_done": lambda *a, **k: iter([_Cmd("mark_done")]),
+                "commands.CloseTcpConnection": other("CloseTcpConnection"), "CloseTcpConnection": other("CloseTcpConnection"),
+                "commands.CloseConnection": other("CloseConnection"), "CloseConnection": other("CloseConnection"), "commands.Log": other("Log"),
+                "http1.expected_http_body_size": lambda *a, **k: 0, "expected_http_body_size": lambda *a, **k: 0}
+
+    TE_W = {"absent": None, "chunked": "chunked", "gzip, chunked": "gzip, chunked", "Chunked": "Chunked", "identity": "identity", "gzip": "gzip"}
+    DATA = b"hello, world"  # 12 bytes: the length is written in hex
+    LAST = b"0\r\n\r\n"
     for qual, datak, eomk, recv in (("Http1Client.send", "RequestData", "RequestEndOfMessage", "request"), ("Http1Server.send", "ResponseData", "ResponseEndOfMessage", "response")):
         fn = ctx.func(H1, qual)
         where = (H1, qual, fn)
-        branches = {}
-        for n in walk_in_order(fn):
-            if isinstance(n, ast.If) and isinstance(n.test, ast.Call) and norm(n.test.func) == "isinstance" and last_attr(n.test.args[1]) in (datak, eomk):
-                branches[last_attr(n.test.args[1])] = n
-        ctx.require(set(branches) == {datak, eomk}, f"{qual}: data/end-of-message branches not found")
-        d = branches[datak]
-        ifs = [x for x in d.body if isinstance(x, ast.If) and "chunked" in norm(x.test)]
-        ctx.require(len(ifs) == 1, f"{qual}: chunked test in the data branch not found")
-        c = ifs[0]
-        okc = (
-            len(c.body) == 1 and isinstance(c.body[0], ast.Assign) and isinstance(c.body[0].value, ast.BinOp) and isinstance(c.body[0].value.op, ast.Mod)
-            and isinstance(c.body[0].value.left, ast.Constant) and c.body[0].value.left.value in (b"%x\r\n%s\r\n", b"%X\r\n%s\r\n")
-            and norm(c.body[0].value.right) == "(len(event.data), event.data)"
-        )
-        ctx.check(okc, "R01.4", where, f"{datak}: chunk frame", "a chunk is not framed as <hex length>CRLF<data>CRLF", desc=f"{qual}: chunk frame literal")
-        oke = len(c.orelse) == 1 and isinstance(c.orelse[0], ast.Assign) and norm(c.orelse[0].value) == "event.data"
-        ctx.check(oke, "R01.4", where, f"{datak}: identity body", "non-chunked body data is not sent unchanged", desc=f"{qual}: identity relay of non-chunked data")
-        e = branches[eomk]
-        terms = [x for x in walk_in_order(e) if isinstance(x, ast.Call) and last_attr(x.func) == "SendData" and len(x.args) == 2 and isinstance(x.args[1], ast.Constant)]
-        okt = len(terms) == 1 and terms[0].args[1].value == b"0\r\n\r\n"
-        guard = terms[0]._parent if terms else None
-        while guard is not None and not isinstance(guard, ast.If):
-            guard = guard._parent
-        okg = guard is not None and "chunked" in norm(guard.test) and (recv == "request" or "HEAD" in norm(guard.test))
-        ctx.check(okt and okg, "R01.4", where, f"{eomk}: last-chunk", "the chunked terminator 0CRLFCRLF is not emitted exactly when the message is chunked (and not for HEAD responses)",
-                  desc=f"{qual}: terminator under chunked")
-    ctx.expect_instances("R01.4", 15)
+        cls = qual.split(".")[0]
+        res = {"frame": [], "identity": [], "last": []}
+        for te_name, te in TE_W.items():
+            chunked = te is not None and "chunked" in te.lower()
+            for method in ("GET", "HEAD"):
+                def world():
+                    hdr = PDict("Headers", items=({"transfer-encoding": te} if te is not None else {}), case_insensitive=True)
+                    other = PDict("Headers", items={}, case_insensitive=True)
+                    req = PRec("Request", method=method, headers=hdr if recv == "request" else other, is_http2=False, is_http3=False)
+                    resp = PRec("Response", headers=hdr if recv == "response" else other, status_code=200)
+                    return PRec(cls, _bases=("Http1Connection", "HttpConnection", "Layer"), _impl=(H1, cls), conn=PRec("Connection", state=3), request=req, response=resp, stream_id=1,
+                                request_done=False, response_done=False)
+
+                def run(kind, **attrs):
+                    it = PInterp(m, externals=_ext())
+                    ev = PRec(kind, _bases=("HttpEvent", "Event"), stream_id=1, **attrs)
+                    try:
+                        return [c for c in it.method(world(), "send", ev)]
+                    except PRaised as r:
+                        return [f"<raises {r.name}>"]
+
+                sent = [c.data for c in run(datak, data=DATA) if isinstance(c, _Cmd) and c.name == "SendData"]
+                ctx.cells += 1
+                if chunked:
+                    if sent not in ([b"c\r\n" + DATA + b"\r\n"], [b"C\r\n" + DATA + b"\r\n"]):
+                        res["frame"].append(f"TE {te_name}: {datak}({DATA!r}) is written as {sent!r}")
+                else:
+                    if sent != [DATA]:
+                        res["identity"].append(f"TE {te_name}: {datak}({DATA!r}) is written as {sent!r}")
+                out = run(eomk)
+                sent = [c.data for c in out if isinstance(c, _Cmd) and c.name == "SendData"]
+                ctx.cells += 1
+                want = [LAST] if chunked and not (recv == "response" and method == "HEAD") else []
+                if sent != want or any(isinstance(c, str) for c in out):
+                    res["last"].append(f"TE {te_name}, request method {method}: {eomk} writes {sent!r} (expected {want!r})")
+        ctx.check(not res["frame"], "R01.4", where, f"{datak}: chunk frame", "a chunk is not framed as <hex length>CRLF<data>CRLF exactly when the headers announce chunked: " + "; ".join(res["frame"][:2]), desc=f"{qual}: chunk frame under chunked")
+        ctx.check(not res["identity"], "R01.4", where, f"{datak}: identity body", "non-chunked body data is not sent unchanged: " + "; ".join(res["identity"][:2]), desc=f"{qual}: identity relay of non-chunked data")
+        ctx.check(not res["last"], "R01.4", where, f"{eomk}: last-chunk", "the chunked terminator 0CRLFCRLF is not emitted exactly when the message is chunked (and not for HEAD responses): " + "; ".join(res["last"][:2]),
+                  desc=f"{qual}: terminator exactly under chunked")
+    # assemble_body (used for non-streamed serialisation / raw export)
+    ab = ctx.func(ASM, "assemble_body")
+    badab = []
+    for te_name, te in TE_W.items():
+        chunked = te is not None and "chunked" in te.lower()
+        hdr = PDict("Headers", items=({"transfer-encoding": te} if te is not None else {}), case_insensitive=True)
+        for chunks in ([DATA], [b"ab", b"", b"cde"]):
+            it = PInterp(m)
+            try:
+                got = list(it.call(ASM, "assemble_body", hdr, list(chunks), None))
+            except PRaised as r:
+                got = [f"<raises {r.name}>"]
+            ctx.cells += 1
+            want = [b"%x\r\n%s\r\n" % (len(c), c) for c in chunks if c] + [LAST] if chunked else list(chunks)
+            if b"".join(x if isinstance(x, bytes) else b"?" for x in got) != b"".join(want):
+                badab.append(f"TE {te_name}, chunks {chunks!r}: {got!r}")
+    ctx.check(not badab, "R01.4", (ASM, "assemble_body", ab), "assemble_body framing", "assemble_body frames the body differently from what the headers announce: " + "; ".join(badab[:2]), desc="assemble_body: chunked frames + terminator exactly under chunked")
+    ctx.expect_instances("R01.4", 4 + 6 + 1)
 
     # ---- R01.5
     class H1Spec(GenericSpec):
